@@ -116,3 +116,74 @@ impl<P: SerialPort> SerialSignBus<P> {
     }
 //@end
 }
+
+// =====================================================================================
+// C17: the ODK bridge, Odk::process_message, extracted from libs/testing/src/odk.rs on every run
+// =====================================================================================
+/// stand-in for the bus's error type Box<dyn Error + Send + Sync>
+pub struct BusFailure;
+//@type libs/testing/src/odk.rs OdkError "Box<dyn std::error::Error + Send + Sync>" => "BusFailure" "flipdot_core::FrameError" => "FrameError"
+// thiserror's #[from] on the two variants
+impl From<BusFailure> for OdkError {
+    fn from(e: BusFailure) -> (r: OdkError) { OdkError::Bus { source: e } }
+}
+impl vstd::std_specs::convert::FromSpecImpl<BusFailure> for OdkError {
+    open spec fn obeys_from_spec() -> bool { true }
+    open spec fn from_spec(e: BusFailure) -> OdkError { OdkError::Bus { source: e } }
+}
+impl From<FrameError> for OdkError {
+    fn from(e: FrameError) -> (r: OdkError) { OdkError::Communication { source: e } }
+}
+impl vstd::std_specs::convert::FromSpecImpl<FrameError> for OdkError {
+    open spec fn obeys_from_spec() -> bool { true }
+    open spec fn from_spec(e: FrameError) -> OdkError { OdkError::Communication { source: e } }
+}
+/// identity of a message as the bus sees it (opaque: lifetimes of borrowed data are irrelevant to it)
+pub struct MsgKey { pub k: int }
+pub uninterp spec fn mkey(m: Message<'_>) -> MsgKey;
+/// what a reply puts on the wire
+pub open spec fn wire_of(reply: Option<FrameV>) -> Seq<u8> {
+    match reply { Some(fv) => enc(fv) + crlf(), None => Seq::<u8>::empty() }
+}
+/// stand-in for flipdot_core::SignBus with a ghost log: every message it was given, and what it answered (as wire frames)
+pub trait SignBus {
+    spec fn heard(&self) -> Seq<MsgKey>;
+    spec fn answered(&self) -> Seq<Option<FrameV>>;
+    fn process_message<'a>(&mut self, message: Message<'_>) -> (r: Result<Option<Message<'a>>, BusFailure>)
+        ensures
+            final(self).heard() == old(self).heard().push(mkey(message)),
+            final(self).answered() == old(self).answered().push(match r { Ok(Some(m)) => Some(frame_of_msg(m)@), _ => None::<FrameV> });
+}
+
+//@type libs/testing/src/odk.rs Odk
+
+impl<P: SerialPort, B: SignBus> Odk<P, B> {
+    pub closed spec fn the_port(&self) -> P { self.port }
+    pub closed spec fn the_bus(&self) -> B { self.bus }
+//@fn libs/testing/src/odk.rs Odk process_message
+//@ ret r
+//@ contract
+    ensures
+        ({
+            let sink0 = old(self).the_port().sink(); let sink1 = final(self).the_port().sink();
+            let rest0 = old(self).the_port().rest(); let rest1 = final(self).the_port().rest();
+            let heard0 = old(self).the_bus().heard(); let heard1 = final(self).the_bus().heard();
+            let ans0 = old(self).the_bus().answered(); let ans1 = final(self).the_bus().answered();
+            // success: exactly one line was taken off the port, it decoded, the bus was given exactly Message::from of that frame - once -,
+            // and exactly the bus's answer (if any) went back on the wire, as one frame with CRLF
+            &&& r is Ok ==> rest1 == after_first_line(rest0)
+                    && (dec(first_line(rest0)) matches DecV::Ok(fv) && exists|fr: Frame<'static>| fr@ == fv && heard1 == heard0.push(mkey(msg_of_frame(fr))))
+                    && ans1.len() == ans0.len() + 1 && sink1 == sink0 + wire_of(ans1.last())
+            // a line that does not decode is never forwarded and never answered
+            &&& !(dec(first_line(rest0)) is Ok) ==> r is Err && heard1 == heard0 && sink1 == sink0
+            // any failure: the bus was asked at most once, and nothing is written unless the bus was asked
+            &&& r is Err ==> (heard1 == heard0 && sink1 == sink0) || (heard1.len() == heard0.len() + 1 && ans1.len() == ans0.len() + 1
+                    && (sink1 == sink0 || sink1 == sink0 + wire_of(ans1.last()) || delivered_prefix(sink0, sink1, wire_of(ans1.last()))))
+        }),
+//@ entry
+    proof {
+        assert forall|p: P| #[trigger] p.beside_sink() == p.rest() by { p.two_way(); }
+        assert forall|p: P| #[trigger] p.beside_source() == p.sink() by { p.two_way(); }
+    }
+//@end
+}
